@@ -121,6 +121,9 @@ func (r *Record) Render(newline bool) []byte {
 			}
 			sb.WriteByte(']')
 		}
+		if r.Refuse == "oversize" {
+			fmt.Fprintf(&sb, `,"big":"%s"`, strings.Repeat("y", OversizeLimit))
+		}
 		if r.Pad > 0 {
 			fmt.Fprintf(&sb, `,"pad":"%s"`, strings.Repeat("x", r.Pad))
 		}
@@ -131,6 +134,10 @@ func (r *Record) Render(newline bool) []byte {
 	}
 	return []byte(sb.String())
 }
+
+// OversizeLimit is the max_event_size of plans that contain an "oversize" record (every other record
+// stays far below it).
+const OversizeLimit = 2048
 
 // GenOpts restricts the plan generator.
 type GenOpts struct {
@@ -157,6 +164,11 @@ type GenOpts struct {
 	RetryStorm bool
 	// AllowNoMatch: scripted actions carry a match_fields condition and some records do not satisfy it
 	AllowNoMatch bool
+	// ManyHolders: three sources x three streams, each (source, stream) ends with a record that the join-like
+	// action holds until its time-out (300 ms): more streams are occupied at the same time than there
+	// are processors at the start, so the processor pool has to grow (growProcs / expandProcs) and every
+	// stream must still be attended.
+	ManyHolders bool
 }
 
 // GenPlan draws a plan.
@@ -186,6 +198,16 @@ func GenPlan(t *rapid.T, g GenOpts) Plan {
 	nextID := 1
 	streams := []string{"", "a", "b"}
 	nstreams := rapid.IntRange(1, 3).Draw(t, "nstreams")
+	if g.ManyHolders {
+		nsrc, nstreams = 3, 3
+		g.AllowHold, g.TimeoutFlush = true, true
+		p.SingleProc = false
+		p.EventTimeoutMs = 300
+		p.AntispamThreshold = 0
+		if p.Capacity < 16 {
+			p.Capacity = 16
+		}
+	}
 	maxRec := g.MaxRecords
 	if maxRec == 0 {
 		maxRec = 24
@@ -201,7 +223,7 @@ func GenPlan(t *rapid.T, g GenOpts) Plan {
 	holdUsed := false
 	// at most one action of the chain requests sequential events (join-like), unless MultiHold
 	holder, holder2 := -1, -1
-	if g.AllowHold && rapid.IntRange(0, 3).Draw(t, "hasholder") > 0 {
+	if g.AllowHold && (rapid.IntRange(0, 3).Draw(t, "hasholder") > 0 || g.ManyHolders) {
 		holder = rapid.IntRange(0, p.Actions-1).Draw(t, "holder")
 		if g.MultiHold && p.Actions >= 2 {
 			holder2 = rapid.IntRange(0, p.Actions-1).Draw(t, "holder2")
@@ -216,7 +238,7 @@ func GenPlan(t *rapid.T, g GenOpts) Plan {
 			nextID++
 			r.Stream = streams[rapid.IntRange(0, nstreams-1).Draw(t, "stream")]
 			if g.AllowRefuse && rapid.IntRange(0, 11).Draw(t, "refuse") == 0 {
-				r.Refuse = rapid.SampledFrom([]string{"empty", "undecodable", "passfalse"}).Draw(t, "refuse_kind")
+				r.Refuse = rapid.SampledFrom([]string{"empty", "undecodable", "passfalse", "oversize"}).Draw(t, "refuse_kind")
 			}
 			for a := 0; a < p.Actions; a++ {
 				op := "pass"
@@ -317,6 +339,21 @@ func GenPlan(t *rapid.T, g GenOpts) Plan {
 			}
 			holdUsed = true
 			src.Records = append(src.Records, r1, r2)
+		}
+		if g.ManyHolders {
+			for _, st := range streams[:nstreams] {
+				r := Record{ID: nextID, Stream: st}
+				nextID++
+				for a := 0; a < p.Actions; a++ {
+					op := "pass"
+					if a == holder {
+						op = "start"
+					}
+					r.Ops, r.Stall, r.NoMatch = append(r.Ops, op), append(r.Stall, 0), append(r.NoMatch, false)
+				}
+				src.Records = append(src.Records, r)
+			}
+			holdUsed = true
 		}
 		p.Sources = append(p.Sources, src)
 	}
